@@ -119,14 +119,14 @@ CLAIMED = {
         text="Kernel-checked over arbitrary op lists (write/flush/ready/dur/init): emitted samples ++ queued = accepted writes (nothing lost, duplicated, reordered); the k-th segment is "
              "buildSegment samples (k+1) (first dts); empty flush is the identity; a write is rejected iff dts < last accepted dts and then leaves the state unchanged; queries are pure, init only fills "
              "its cache and no reply depends on it; the Spec reader parses every built segment and recovers exactly the sample bytes through the data offset relative to the moof. "
-             "Correspondence: random op sequences + exhaustive sequences up to length 5/7 over a 6-letter alphabet.",
+             "Correspondence: random op sequences + exhaustive sequences up to length 5/7 over a 6-letter alphabet. FragmentedMuxer::write_video / flush_segment / ready_to_flush / current_fragment_duration_ms are TRANSLATED from src/fragmented.rs on every run (tools/rs2lean_frag.py) and proved equal to the model's Frag.write / flush / ready / spanMs (Props/C10Generated.lean).",
         note=TB + "Reader theorem assumes 8 + payload < 2^32 and moof < 2^31 (the mdat size field is written without a guard; the counter-theorem C10_mdat_overflow shows the wrap).",
         technique="Lean 4 proof (invariant by induction over the op list, reader∘writer round trip) + correspondence check",
         ref="DESIGN.md section 5 C10"),
     "C11": dict(
         text="Kernel-checked: trun rows carry dts_{i+1}-dts_i, size, flags whose non-sync bit is the negation of sync, and pts-dts (exact within i32); every segment's tfdt is its first sample's DTS, "
              "hence monotone, never earlier than the previous segment's last decode time, and equal to first DTS minus the constant 0 for any input; every init reply equals buildInit(config). "
-             "Correspondence incl. exhaustive DTS sequences x all segmentations.",
+             "Correspondence incl. exhaustive DTS sequences x all segmentations. flush_segment and write_video are TRANSLATED from the source on every run (tools/rs2lean_frag.py) and proved equal to the model's (Props/C11Generated.lean).",
         note=TB + "Found and fixed in /repo: tfdt was 0 for the first segment and last+average afterwards (moved backwards).",
         technique="Lean 4 proof (run invariants, reader on built segments) + correspondence check",
         ref="DESIGN.md section 5 C11"),
